@@ -305,7 +305,7 @@ func runC11(tier string) int {
 	r.Assume("command config: fixed var_name, var_name_arg_position 0 and 1, a command without argument list, a constant argument, an inline text argument",
 		"the preamble is an observable command whose text is the statement rendering 'name arg, arg' (C10 checks that rendering rule separately)")
 	return r.Finish(r.Get("evaluations"), r.Get("nontrivial"),
-		"C02's expression trees with 1-2 leaves replaced by AutoVar leaves (also two calls of one command, with different and with the very same arguments; 7 command kinds incl. arguments containing '%' x 9 comparison forms, rotated for k>=3) x decorations x 18 condition positions (four of them - for conditions of <= 2 leaves - an if whose body is a single call / goto / return / end; the 14th - a trailing elif with an empty body - in lazy mode: its AutoVar command must still run) x optimize on/off, plus AutoVar switch operands in 7 contexts (incl. switches nested in its cases and the AutoVar switch nested in another switch), plus AutoVar switch / if / while / do...while statements inside poryswitch cases (colon and brace form, selected directly and through '_'), plus while / do...while loops with an AutoVar condition (alone and behind &&) whose body holds no command (break, continue, nothing, a guarded break, a poryswitch that leaves a break) or label-reached statements after a break (lazy mode); the programs with <= 2 leaves, the switch programs and the poryswitch-wrapped ones also compiled with line markers on, without and with an input path; lockstep exploration (the preamble command, each operand read and each body command are observable events); non-trivial = >= 2 leaves or a switch")
+		"C02's expression trees with 1-2 leaves replaced by AutoVar leaves (also two calls of one command, with different and with the very same arguments; 7 command kinds incl. arguments containing '%' x 9 comparison forms, rotated for k>=3) x decorations x 18 condition positions (four of them - for conditions of <= 2 leaves - an if whose body is a single call / goto / return / end; the 14th - a trailing elif with an empty body - in lazy mode: its AutoVar command must still run) x optimize on/off, plus AutoVar switch operands in 7 contexts (incl. switches nested in its cases and the AutoVar switch nested in another switch), plus AutoVar switches none of whose cases has a body (4 case lists x 3 contexts, lazy mode: the command still runs), plus AutoVar switch / if / while / do...while statements inside poryswitch cases (colon and brace form, selected directly and through '_'), plus while / do...while loops with an AutoVar condition (alone and behind &&) whose body holds no command (break, continue, nothing, a guarded break, a poryswitch that leaves a break) or label-reached statements after a break (lazy mode); the programs with <= 2 leaves, the switch programs and the poryswitch-wrapped ones also compiled with line markers on, without and with an input path; lockstep exploration (the preamble command, each operand read and each body command are observable events); non-trivial = >= 2 leaves or a switch")
 }
 
 func c11Eval(r *harness.Run, sc *model.Script, copts *comp.Opts, desc string, nontrivial bool) {
